@@ -38,11 +38,12 @@ import (
 func init() {
 	families["stages.redis"] = &Family{Gen: genRedisConv, Run: func(p sx.Sx) sx.Sx { return runStages("redis", p) }}
 	families["stages.amqp"] = &Family{Gen: genAmqpConv, Run: func(p sx.Sx) sx.Sx { return runStages("amqp", p) }}
-	families["stages.http"] = &Family{Gen: genHttpConv, Run: func(p sx.Sx) sx.Sx { return runStages("http", p) }}
+	families["stages.http"] = &Family{Gen: genHttpStages, Run: func(p sx.Sx) sx.Sx { return runStages("http", p) }}
 	families["stages.dns"] = &Family{Gen: genDnsEntries, Run: func(p sx.Sx) sx.Sx { return runStages("dns", p) }}
 	for _, p := range []string{"redis", "amqp", "http", "dns"} {
 		families["queries."+p] = families["stages."+p]
 	}
+	families["queries.http"] = &Family{Gen: genHttpConv, Run: func(p sx.Sx) sx.Sx { return runStages("http", p) }}
 }
 
 func macroNames() []string {
@@ -287,6 +288,22 @@ func genHttpConv(r *Rand, tier string, emit func(sx.Sx)) {
 		}
 		emit(sx.L(exs...))
 	}
+}
+
+// stages.http: the conversations of http.conv plus request targets whose path is empty or not a
+// path at all (absolute-form without a path, authority-form CONNECT, OPTIONS *), which net/http
+// accepts and the dissector emits like any other request
+func genHttpStages(r *Rand, tier string, emit func(sx.Sx)) {
+	host := sx.L(sx.L(sx.S("Host"), sx.S("host.example")))
+	for _, t := range [][2]string{{"GET", "http://host.example"}, {"GET", "http://host.example?q=1"}, {"CONNECT", "host.example:443"},
+		{"OPTIONS", "*"}, {"GET", "//double//slash"}, {"GET", "/%zz"}, {"GET", "http://host.example/"}} {
+		for _, minor := range []int{1, 0} {
+			req := sx.L(sx.A("req"), sx.S(t[0]), sx.S(t[1]), sx.N(minor), host, sx.A("none"), sx.B(nil))
+			resp := sx.L(sx.A("resp"), sx.N(200), sx.S("OK"), sx.N(minor), sx.L(), sx.A("cl"), sx.B([]byte("ok")))
+			emit(sx.L(sx.L(sx.A("ex"), req, resp)))
+		}
+	}
+	genHttpConv(r, tier, emit)
 }
 
 // ---- DNS entries (DNS has no Dissect here: items come from the tap)
